@@ -267,6 +267,10 @@ func child(args []string) int {
 	}))
 	if usesSignal {
 		casket.TrapSignals()
+		if !lib.WaitSignalTraps() {
+			fmt.Fprintln(os.Stderr, "signal traps never became ready")
+			return 3
+		}
 	}
 	out := bufio.NewWriter(os.Stdout)
 	emit := func(v interface{}) {
